@@ -561,7 +561,97 @@ def repeat_case(ctx, case):
     ctx.label('repeat_sessions_%d' % len(srvs))
 
 
-COMPONENTS = {'repeat': repeat_case, 'write_error': write_error_case,
+def two_connections_case(ctx, case):
+    """Two Connection objects in play at the same time in one process: each
+    answers exactly the keep-alives sent to IT, on its own socket, in its
+    own protocol version; a disconnect packet ends only the connection it
+    was sent to.  case {va, vb, ca, cb, ids_a, ids_b, first: 'a'|'b'}"""
+    import time
+    ctx.ev()
+    spec = {}
+    for k in 'ab':
+        comp = case.get('c' + k)
+        spec[k] = servers.Server({
+            'version': case['v' + k],
+            'login': ([('compress', comp)] if comp is not None else []) +
+            [('success',)], 'play': {'bursts': [], 'end': 'silent'}})
+    world = vnet.World(servers=[spec['a'], spec['b']])
+    world.block_guard = 5.0
+    conns, obs = {}, {}
+
+    def wait_play(k):
+        for _ in range(5000):
+            if spec[k].play_started:
+                break
+            time.sleep(0.001)
+        return world.wait_idle(spec[k].link, conns[k])
+
+    def idle_both():
+        return all(world.wait_idle(spec[k].link, conns[k]) for k in 'ab')
+    with vnet.installed(world):
+        try:
+            for k in 'ab':
+                conns[k], obs[k] = servers.make_connection(
+                    world, allowed_versions={case['v' + k]})
+                conns[k].connect()
+                if not wait_play(k):
+                    from vlib.core import HarnessError
+                    raise HarnessError('C11 two_connections: login did not '
+                                       'settle')
+            order = 'ab' if case.get('first', 'a') == 'a' else 'ba'
+            for k in order:
+                for i in case['ids_' + k]:
+                    spec[k].send_item(('keep_alive', {'keep_alive_id': i}))
+                idle_both()
+            snap = {k: (list(spec[k].replies),
+                        list(spec[k].other_play_frames)) for k in 'ab'}
+            # a disconnect packet for the first one only
+            k1, k2 = order
+            spec[k1].send_frame(*servers.encode(case['v' + k1], 'disconnect',
+                                                json_data='{"text":"bye"}'))
+            spec[k1].close()
+            for _ in range(3000):
+                if not conns[k1].connected and \
+                        conns[k1].networking_thread is None:
+                    break
+                time.sleep(0.001)
+            world.wait_idle(spec[k2].link, conns[k2])
+            mid = {k: (conns[k].connected, obs[k].exits,
+                       spec[k].link.closed_by_client()) for k in 'ab'}
+            spec[k2].send_frame(*servers.encode(case['v' + k2], 'disconnect',
+                                                json_data='{"text":"bye"}'))
+            spec[k2].close()
+            state = world.settle(timeout=20.0)
+        except Exception as e:
+            if type(e).__name__ == 'HarnessError':
+                raise
+            ctx.fail('two_connections', 'K-raised', case, exc=e)
+            world.kill_all()
+            return
+    for k in 'ab':
+        want = [('keep_alive', i) for i in case['ids_' + k]]
+        if snap[k][0] != want or snap[k][1] or spec[k].errors:
+            ctx.fail('two_connections', 'K1K2-replies', dict(case, side=k),
+                     (snap[k][0][:6], len(snap[k][1]), spec[k].errors[:2]),
+                     (want[:6], 0, []))
+            return
+    if mid[k1] != (False, 1, True) or mid[k2] != (True, 0, False):
+        ctx.fail('two_connections', 'K4-disconnect-reached-the-other',
+                 case, {k1: mid[k1], k2: mid[k2]},
+                 {k1: (False, 1, True), k2: (True, 0, False)})
+        return
+    if state != 'done' or obs[k2].exits != 1 or obs['a'].exceptions or \
+            obs['b'].exceptions:
+        ctx.fail('two_connections', 'K4-ending', case,
+                 (state, obs[k2].exits, repr(obs['a'].exceptions[:1]),
+                  repr(obs['b'].exceptions[:1])), ('done', 1, '[]', '[]'))
+        return
+    ctx.nt('two', repr(case))
+    ctx.label('two_connections')
+
+
+COMPONENTS = {'two_connections': two_connections_case,
+              'repeat': repeat_case, 'write_error': write_error_case,
               'history': history_case, 'real_history': real_history_case,
               'listener_disconnect': listener_disconnect_case}
 
@@ -702,6 +792,27 @@ def t_real(ctx, versions, n):
                'real')
 
 
+def t_two_connections(ctx, n):
+    k = 0
+    for va, vb in ((340, 340), (47, 47), (47, 340), (757, 47), (757, 757)):
+        for first in 'ab':
+            k += 1
+            two_connections_case(ctx, {
+                'va': va, 'vb': vb, 'ca': [None, 64][k % 2],
+                'cb': [0, None][k % 2], 'ids_a': [1, 2, 3],
+                'ids_b': [2 ** 31 - 1, 5], 'first': first})
+    strat = st.fixed_dictionaries({
+        'va': st.sampled_from([47, 340, 498, 757]),
+        'vb': st.sampled_from([47, 340, 498, 757]),
+        'ca': st.sampled_from([None, 0, 64]),
+        'cb': st.sampled_from([None, 0, 64]),
+        'ids_a': st.lists(st.integers(0, 2 ** 31 - 1), max_size=5),
+        'ids_b': st.lists(st.integers(0, 2 ** 31 - 1), max_size=5),
+        'first': st.sampled_from('ab')})
+    hyp(ctx, 'two_connections', strat,
+        lambda c, case: two_connections_case(c, case), n)
+
+
 def t_repeat(ctx, versions, n):
     k = 0
     for v in versions:
@@ -764,6 +875,8 @@ def tasks(tier):
         tl.append(('real_%d' % i, t_real,
                    dict(versions=rel, n=12 if q else 150)))
     tl.append(('write_error', t_write_error, dict(versions=rel)))
+    tl.append(('two_connections', t_two_connections,
+               dict(n=15 if q else 400)))
     tl.append(('repeat', t_repeat, dict(versions=rel[::2] if q else rel,
                                         n=40 if q else 1000)))
     tl.append(('listener_disconnect', t_listener_disconnect,
